@@ -85,3 +85,81 @@ func VH_C03_TransferGarbageContained() {
 		vAssert("finished_transfer_removed", srv.FileTransferMgr.Get(ft.RefNum) == nil)
 	}
 }
+
+func c03Recovered(fn func()) {
+	defer func() { recover() }()
+	fn()
+}
+
+// The shared registries survive being asked about things that do not exist (a transfer reference presented twice is
+// deleted twice; chat and client IDs are whatever a client sent): the call may fault - the caller recovers and drops
+// that connection - but the registry's lock is released, so the next client is not blocked forever.
+func VH_C03_RegistryLocksReleasedOnFault_sym() {
+	srv, other, _ := c03Server()
+	ft := other.NewFileTransfer(FileDownload, "/r", []byte("f.bin"), nil, []byte{0, 0, 0, 0})
+	ref := [4]byte(vBytesN("reference", 4))
+	id2 := [2]byte(vBytesN("client_id", 2))
+	chat := ChatID(vBytesN("chat_id", 4))
+	switch vChoice("registry_call", 9) {
+	case 0:
+		c03Recovered(func() { srv.FileTransferMgr.Delete(ft.RefNum) })
+		c03Recovered(func() { srv.FileTransferMgr.Delete(ft.RefNum) }) // second connection with the same reference
+	case 1:
+		c03Recovered(func() { srv.FileTransferMgr.Delete(ref) })
+	case 2:
+		c03Recovered(func() { srv.FileTransferMgr.Get(ref) })
+	case 3:
+		c03Recovered(func() { srv.ClientMgr.Delete(id2) })
+	case 4:
+		c03Recovered(func() { srv.ClientMgr.Get(id2) })
+	case 5:
+		c03Recovered(func() { srv.ChatMgr.Join(chat, other) })
+	case 6:
+		c03Recovered(func() { srv.ChatMgr.Leave(chat, id2) })
+	case 7:
+		c03Recovered(func() { srv.ChatMgr.SetSubject(chat, "s") })
+	default:
+		c03Recovered(func() { srv.ChatMgr.Members(chat); srv.ChatMgr.GetSubject(chat) })
+	}
+	vAssert("registry_lock_released_even_when_the_call_faults", vLocksHeldNow() == 0)
+}
+
+// vStallConn is a client that stopped reading its socket: Write records how many queued transactions were still
+// waiting in the server's outbox when the write to this client began.
+type vStallConn struct {
+	vRecConn
+	srv            *Server
+	waitingAtWrite int
+	wrote          bool
+}
+
+func (c *vStallConn) Write(p []byte) (int, error) {
+	if !c.wrote {
+		c.wrote = true
+		c.waitingAtWrite = len(c.srv.outbox)
+	}
+	return len(p), nil
+}
+
+// One client that does not read its socket must not hold up what the server has queued for everybody else: the
+// connection offers no write deadline (io.ReadWriteCloser), so the single outbox consumer must never be the flow
+// that performs a client's socket write. Schedule explored: the consumer runs until it blocks on the empty outbox,
+// then every goroutine it started; whenever a write to the stalled client begins nothing is left waiting behind it.
+func VH_C03_StalledClientDoesNotHoldUpOutbox_sym() {
+	srv, _ := NewServer()
+	srv.Logger = vLogger()
+	stall := &vStallConn{srv: srv}
+	bad := &ClientConn{Connection: stall, Server: srv, Account: &Account{Login: "s"}, UserName: []byte("s")}
+	goodConn := &vRecConn{}
+	good := &ClientConn{Connection: goodConn, Server: srv, Account: &Account{Login: "o"}, UserName: []byte("o")}
+	srv.ClientMgr.Add(bad)
+	srv.ClientMgr.Add(good)
+	d := vBytesEach("data", 2)
+	srv.outbox <- NewTransaction(TranServerMsg, bad.ID, NewField(FieldData, d))
+	srv.outbox <- NewTransaction(TranServerMsg, good.ID, NewField(FieldData, d))
+	go srv.processOutbox()
+	vRunSpawned()
+	vAssert("stalled_client_was_written_to", stall.wrote)
+	vAssert("nothing_waits_behind_a_write_to_a_stalled_client", stall.waitingAtWrite == 0)
+	vAssert("other_client_got_its_transaction", len(goodConn.writes) == 1)
+}
